@@ -8,3 +8,4 @@ pub mod c08;
 pub mod val;
 pub mod codec;
 pub mod typed;
+pub mod frame;
